@@ -176,8 +176,13 @@ def _run_case(case, ctx):
         mediamon.set_form(form)
         d = DiskFile(granule_fill_order=case["order"]) if case["order"] else DiskFile()
         stored = []
-        for s in specs:
+        for j, s in enumerate(specs):
             mediamon.set_form(form, {"lenclass": len_class(s), "kind": s["kind"]})
+            if j and (len(case["id"]) + j) % 3 == 0:
+                # save / re-open between additions: a new object on a copy of the bytes, as a list, bytes or a bytearray
+                conv = (list, bytes, bytearray)[(len(case["id"]) + j) // 3 % 3]
+                d = DiskFile(buffer=conv(d.get_buffer()), granule_fill_order=case["order"]) if case["order"] else DiskFile(buffer=conv(d.get_buffer()))
+                ctx.mon("reopened-between-additions")
             try:
                 d.add_file(G.to_coco(s))             # M8 fires
                 stored.append(s)
